@@ -55,6 +55,7 @@ import (
 	"io"
 	"net/http"
 	"sort"
+	"strconv"
 	"strings"
 	"time"
 
@@ -362,7 +363,12 @@ func normHeader(h http.Header, skip map[string]bool) string {
 	return sb.String()
 }
 
-type mismatch struct{ sig, desc string }
+// mismatch is one disagreement; msg is the index of the message it was seen in (-1: the stream).
+type mismatch struct {
+	sig, desc string
+	msg       int
+	verdict   string // the error class when the disagreement is a rejection
+}
 
 func hasCommaConn(h http.Header) bool {
 	for _, v := range h["Connection"] {
@@ -400,14 +406,16 @@ func cmpTrailer(goT, nbT http.Header) *mismatch {
 		}
 	}
 	if trunc {
-		return &mismatch{"trailer-value-truncated-at-first-space", fmt.Sprintf("trailers: net/http %s, nbhttp %s", a, b)}
+		return &mismatch{sig: "trailer-value-truncated-at-first-space", desc: fmt.Sprintf("trailers: net/http %s, nbhttp %s", a, b)}
 	}
-	return &mismatch{"trailer-multimap-differs", fmt.Sprintf("trailers: net/http %s, nbhttp %s", a, b)}
+	return &mismatch{sig: "trailer-multimap-differs", desc: fmt.Sprintf("trailers: net/http %s, nbhttp %s", a, b)}
 }
 
 func cmpRequest(g *goMsg, n *httpgen.ReqDump) []mismatch {
 	var out []mismatch
-	add := func(sig, f string, a ...interface{}) { out = append(out, mismatch{sig, fmt.Sprintf(f, a...)}) }
+	add := func(sig, f string, a ...interface{}) {
+		out = append(out, mismatch{sig: sig, desc: fmt.Sprintf(f, a...)})
+	}
 	r := g.req
 	if r.Method != n.Method {
 		add("request-method-differs", "method: net/http %q, nbhttp %q", r.Method, n.Method)
@@ -425,9 +433,12 @@ func cmpRequest(g *goMsg, n *httpgen.ReqDump) []mismatch {
 		add("request-host-differs", "Host: net/http %q, nbhttp %q", r.Host, n.Host)
 	}
 	chunked := len(r.TransferEncoding) > 0
-	skip := map[string]bool{"Host": true, "Transfer-Encoding": true, "Trailer": true}
+	skip := map[string]bool{"Host": true, "Transfer-Encoding": true}
 	if chunked {
+		// net/http removes Content-Length and moves the Trailer declaration into Request.Trailer;
+		// on a non-chunked message it keeps "Trailer" as a plain header, and so must nbhttp
 		skip["Content-Length"] = true
+		skip["Trailer"] = true
 	}
 	if _, ok := r.Header["Connection"]; !ok && r.Close {
 		skip["Connection"] = true // net/http deletes "Connection" once it has recorded close
@@ -455,22 +466,42 @@ func cmpRequest(g *goMsg, n *httpgen.ReqDump) []mismatch {
 
 func cmpResponse(g *goMsg, n *httpgen.ResDump) []mismatch {
 	var out []mismatch
-	add := func(sig, f string, a ...interface{}) { out = append(out, mismatch{sig, fmt.Sprintf(f, a...)}) }
+	add := func(sig, f string, a ...interface{}) {
+		out = append(out, mismatch{sig: sig, desc: fmt.Sprintf(f, a...)})
+	}
 	r := g.res
 	if r.StatusCode != n.Code {
 		add("response-status-code-differs", "status code: net/http %d, nbhttp %d", r.StatusCode, n.Code)
 	}
-	// reason phrase: compared only when it is a single word (nbhttp keeps the first word by design)
-	if reason := strings.TrimPrefix(r.Status, fmt.Sprintf("%d ", r.StatusCode)); !strings.Contains(reason, " ") && reason != n.Status {
-		add("response-reason-differs", "reason: net/http %q, nbhttp %q", reason, n.Status)
+	// net/http composes Status as "<code> <reason-phrase>" (the status line behind the version);
+	// nbhttp delivers the reason-phrase alone and keeps its first word only (recorded design):
+	// a reason of one word is compared as a whole, of a longer one the first word; both modulo
+	// surrounding whitespace
+	reason := trimOWS(strings.TrimPrefix(r.Status, strconv.Itoa(r.StatusCode)))
+	got := trimOWS(n.Status)
+	want, sig := reason, "response-reason-differs"
+	if i := strings.IndexByte(reason, ' '); i >= 0 {
+		want, sig = reason[:i], "response-reason-first-word-differs"
+	}
+	if want != got {
+		// refine: is it the expected word without its leading bytes that are not letters?
+		k := 0
+		for k < len(want) && !isLetter(want[k]) {
+			k++
+		}
+		if k > 0 && want[k:] == got {
+			sig = "response-reason-leading-non-letters-dropped"
+		}
+		add(sig, "reason-phrase: net/http %q (Status %q; compared word %q), nbhttp %q", reason, r.Status, want, n.Status)
 	}
 	if r.ProtoMajor != n.Major || r.ProtoMinor != n.Minor || r.Proto != n.Proto {
 		add("response-version-differs", "proto: net/http %q, nbhttp %q", r.Proto, n.Proto)
 	}
 	chunked := len(r.TransferEncoding) > 0
-	skip := map[string]bool{"Transfer-Encoding": true, "Trailer": true}
+	skip := map[string]bool{"Transfer-Encoding": true}
 	if chunked {
 		skip["Content-Length"] = true
+		skip["Trailer"] = true
 	}
 	if _, ok := r.Header["Connection"]; !ok && r.Close {
 		skip["Connection"] = true
@@ -487,11 +518,40 @@ func cmpResponse(g *goMsg, n *httpgen.ResDump) []mismatch {
 	return out
 }
 
+func isLetter(c byte) bool { return 'a' <= c|0x20 && c|0x20 <= 'z' }
+
 func clip(b []byte) string {
 	if len(b) > 40 {
 		return string(b[:40]) + "..."
 	}
 	return string(b)
+}
+
+// features names the framing class of a message as the reference parsed it, plus what it says
+// about trailers: "bodiless", "content-length", "chunked", "+trailer-declared" (a Trailer header
+// on a non-chunked message: a plain header), "+trailers" (declared and sent on a chunked one).
+func features(g *goMsg) string {
+	var h, t http.Header
+	var te []string
+	if g.req != nil {
+		h, t, te = g.req.Header, g.req.Trailer, g.req.TransferEncoding
+	} else {
+		h, t, te = g.res.Header, g.res.Trailer, g.res.TransferEncoding
+	}
+	switch {
+	case len(te) > 0 && len(t) > 0:
+		return "chunked+trailers"
+	case len(te) > 0:
+		return "chunked"
+	}
+	f := "bodiless"
+	if _, ok := h["Content-Length"]; ok {
+		f = "content-length"
+	}
+	if _, ok := h["Trailer"]; ok {
+		f += "+trailer-declared"
+	}
+	return f
 }
 
 // ---------------------------------------------------------------------------------------------
@@ -506,36 +566,28 @@ type feedKind struct {
 
 var feeds = []feedKind{{"one-piece", 0}, {"byte-at-a-time", 1}}
 
-// check runs the reference and nbhttp on one stream and returns the violations (also used by replay).
-func check(stream []byte, client bool, every int) (viol []mismatch, refErr error, nmsgs int, res *httpgen.Result, nontrivial bool) {
-	gos, gerr := goParse(stream, client)
-	if gerr != nil {
-		return nil, gerr, 0, nil, false
-	}
-	// non-trivial: the reference saw a body, a trailer, a Connection header or a pipeline, i.e.
-	// something beyond a bare start line + plain headers had to be extracted identically
-	nontrivial = len(gos) > 1
-	for _, g := range gos {
-		var h, t http.Header
-		var cl bool
-		if g.req != nil {
-			h, t, cl = g.req.Header, g.req.Trailer, g.req.Close
-		} else {
-			h, t, cl = g.res.Header, g.res.Trailer, g.res.Close
-		}
-		if len(g.body) > 0 || len(t) > 0 || cl || len(h["Connection"]) > 0 {
-			nontrivial = true
-		}
-	}
-	c := &httpgen.Case{Stream: stream, Client: client, Mode: httpgen.Real, ReadLimit: -1, Policy: track.Pooled, Every: every, Lite: true}
-	r := httpgen.Run(c, true)
-	res = r
+func newCase(stream []byte, client bool, every int) *httpgen.Case {
+	return &httpgen.Case{Stream: stream, Client: client, Mode: httpgen.Real, ReadLimit: -1, Policy: track.Pooled, Every: every, Lite: true}
+}
+
+// judge runs nbhttp on a stream the reference has parsed into gos and returns the disagreements.
+// With attribute set, a disagreement in a message that has predecessors on the connection is
+// re-examined: the message is parsed alone on a fresh parser, and when it does not fail the same
+// way there, the signature names the predecessors' features (carried state), see attribute.
+func judge(gos []goMsg, stream []byte, client bool, every int, attr bool) (viol []mismatch, r *httpgen.Result) {
+	r = httpgen.Run(newCase(stream, client, every), true)
 	if len(r.Panics) > 0 {
-		viol = append(viol, mismatch{"panic-in-parse", r.Panics[0]})
+		viol = append(viol, mismatch{sig: "panic-in-parse", desc: r.Panics[0], msg: -1})
 	}
 	got := len(r.Reqs)
 	if client {
 		got = len(r.Ress)
+	}
+	at := func(i int) int {
+		if i < len(gos) {
+			return i
+		}
+		return -1
 	}
 	if r.Verdict != "" {
 		// the message nbhttp failed on is the one after the last delivered; name the feature of
@@ -559,52 +611,179 @@ func check(stream []byte, client bool, every int) (viol []mismatch, refErr error
 				}
 			}
 		}
-		viol = append(viol, mismatch{fmt.Sprintf("rejects-wellformed verdict=%s state=%s feature=%s", httpgen.ErrKind(r.Verdict), httpgen.StateName(r.ErrState), feature),
-			fmt.Sprintf("net/http parses %d message(s) without error; nbhttp returns %q at offset <= %d (parser state %s) in message %d", len(gos), r.Verdict, r.ErrOffset, httpgen.StateName(r.ErrState), got)})
+		viol = append(viol, mismatch{sig: fmt.Sprintf("rejects-wellformed verdict=%s state=%s feature=%s", httpgen.ErrKind(r.Verdict), httpgen.StateName(r.ErrState), feature),
+			desc:    fmt.Sprintf("net/http parses %d message(s) without error; nbhttp returns %q at offset <= %d (parser state %s) in message %d", len(gos), r.Verdict, r.ErrOffset, httpgen.StateName(r.ErrState), got),
+			msg:     at(got),
+			verdict: httpgen.ErrKind(r.Verdict)})
 	}
 	if got != len(gos) && r.Verdict == "" {
-		viol = append(viol, mismatch{"message-count-differs", fmt.Sprintf("net/http delivered %d messages, nbhttp %d", len(gos), got)})
+		viol = append(viol, mismatch{sig: "message-count-differs", desc: fmt.Sprintf("net/http delivered %d messages, nbhttp %d (no error)", len(gos), got), msg: at(got)})
 	}
 	for i := 0; i < got && i < len(gos); i++ {
 		var ms []mismatch
-		at := 0
+		end := 0
 		if client {
 			ms = cmpResponse(&gos[i], r.Ress[i])
-			at = r.Ress[i].At
+			end = r.Ress[i].At
 		} else {
 			ms = cmpRequest(&gos[i], r.Reqs[i])
-			at = r.Reqs[i].At
+			end = r.Reqs[i].At
 		}
 		for _, m := range ms {
 			m.desc = fmt.Sprintf("message %d: %s", i, m.desc)
+			m.msg = i
 			viol = append(viol, m)
 		}
-		if every == 1 && at != gos[i].end {
-			viol = append(viol, mismatch{"message-boundary-offset-differs", fmt.Sprintf("message %d: net/http consumed %d bytes, nbhttp completed the message after %d bytes", i, gos[i].end, at)})
+		if every == 1 && end != gos[i].end {
+			viol = append(viol, mismatch{sig: "message-boundary-offset-differs", desc: fmt.Sprintf("message %d: net/http consumed %d bytes, nbhttp completed the message after %d bytes", i, gos[i].end, end), msg: i})
 		}
 	}
-	return viol, nil, len(gos), r, nontrivial
+	if attr {
+		attribute(viol, gos, stream, client, every)
+	}
+	return viol, r
 }
 
-func (e *evaluator) stream(m *httpgen.Msg, client bool) {
+// attribute rewrites the signature of a disagreement seen in message i >= 1 of a pipeline when the
+// same message, parsed alone on a fresh parser, does not show it: then it is the state the
+// predecessors left behind, and the signature says which kind of predecessors
+// (pipeline-successor-rejected / -not-delivered / -differs pred=<features>[> ...] succ=<features>).
+// With two predecessors the smallest subset behind which the message still fails the same way is
+// named (the nearer one first), so that one defect does not get a signature per bystander.
+func attribute(viol []mismatch, gos []goMsg, stream []byte, client bool, every int) {
+	msgBytes := func(j int) []byte {
+		from := 0
+		if j > 0 {
+			from = gos[j-1].end
+		}
+		return stream[from:gos[j].end]
+	}
+	// fails reports whether message i, parsed behind the messages preds on a fresh parser, shows
+	// a disagreement with the plain signature sig
+	memo := map[string]map[string]bool{}
+	fails := func(preds []int, i int, sig string) bool {
+		key := fmt.Sprint(preds, i)
+		sigs, ok := memo[key]
+		if !ok {
+			sigs = map[string]bool{}
+			var sub []byte
+			for _, j := range preds {
+				sub = append(sub, msgBytes(j)...)
+			}
+			sub = append(sub, msgBytes(i)...)
+			if sg, err := goParse(sub, client); err == nil && len(sg) == len(preds)+1 {
+				av, _ := judge(sg, sub, client, every, false)
+				for _, a := range av {
+					if a.msg == len(preds) {
+						sigs[a.sig] = true
+					}
+				}
+			}
+			memo[key] = sigs
+		}
+		return sigs[sig]
+	}
+	for k := range viol {
+		v := &viol[k]
+		i := v.msg
+		if i < 1 || i >= len(gos) {
+			continue
+		}
+		if fails(nil, i, v.sig) {
+			continue // fails the same way on a fresh connection: a defect of the single message
+		}
+		all := make([]int, i)
+		for j := range all {
+			all[j] = j
+		}
+		preds := all
+		if i >= 2 {
+			for j := i - 1; j >= 0; j-- {
+				if fails([]int{j}, i, v.sig) {
+					preds = []int{j}
+					break
+				}
+			}
+		}
+		var pf []string
+		for _, j := range preds {
+			pf = append(pf, features(&gos[j]))
+		}
+		ps, ss := strings.Join(pf, ">"), features(&gos[i])
+		switch {
+		case v.verdict != "":
+			v.sig = fmt.Sprintf("pipeline-successor-rejected pred=%s succ=%s verdict=%s", ps, ss, v.verdict)
+		case v.sig == "message-count-differs":
+			v.sig = fmt.Sprintf("pipeline-successor-not-delivered pred=%s succ=%s", ps, ss)
+		default:
+			v.sig = fmt.Sprintf("pipeline-successor-differs pred=%s succ=%s what=%s", ps, ss, v.sig)
+		}
+		v.desc += fmt.Sprintf(" | the same message parsed alone on a fresh parser does not show this: state carried over; it does behind message(s) %v of the stream", preds)
+	}
+}
+
+// nontrivialRef: the reference saw a body, a trailer, a Connection header or a pipeline, i.e.
+// something beyond a bare start line + plain headers had to be extracted identically.
+func nontrivialRef(gos []goMsg) bool {
+	nontrivial := len(gos) > 1
+	for _, g := range gos {
+		var h, t http.Header
+		var cl bool
+		if g.req != nil {
+			h, t, cl = g.req.Header, g.req.Trailer, g.req.Close
+		} else {
+			h, t, cl = g.res.Header, g.res.Trailer, g.res.Close
+		}
+		if len(g.body) > 0 || len(t) > 0 || cl || len(h["Connection"]) > 0 {
+			nontrivial = true
+		}
+	}
+	return nontrivial
+}
+
+// check runs the reference and nbhttp on one stream and returns the violations (replay).
+func check(stream []byte, client bool, every int) (viol []mismatch, refErr error, gos []goMsg, res *httpgen.Result) {
+	gos, refErr = goParse(stream, client)
+	if refErr != nil {
+		return nil, refErr, nil, nil
+	}
+	viol, res = judge(gos, stream, client, every, true)
+	return viol, nil, gos, res
+}
+
+// stream evaluates one stream under both feeds. outside != "" marks a form that net/http accepts
+// but that is outside the RFC 7230 grammar the property quantifies over: it is run and what
+// happens is counted, never reported.
+func (e *evaluator) stream(m *httpgen.Msg, client bool, outside string) {
 	p := e.p
 	p.Count("streams", 1)
+	gos, refErr := goParse(m.B, client)
+	if refErr != nil {
+		p.Count("reference_rejected", 1)
+		p.Count("reference_rejected: "+refErr.Error(), 1)
+		return
+	}
+	nontrivial := nontrivialRef(gos)
 	for _, fk := range feeds {
-		viol, refErr, nmsgs, r, nontrivial := check(m.B, client, fk.every)
-		if refErr != nil {
-			p.Count("reference_rejected", 1)
-			p.Count("reference_rejected: "+refErr.Error(), 1)
-			return
-		}
+		viol, r := judge(gos, m.B, client, fk.every, true)
 		p.Case(nontrivial, 1, r.Feeds)
 		p.Count("cases."+fk.name, 1)
-		p.Count("messages_compared", nmsgs)
+		p.Count("messages_compared", len(gos))
 		if len(r.TrackViol) > 0 {
 			p.Count("cases_with_ownership_violation(C11)", 1)
 		}
+		if outside != "" {
+			if len(viol) == 0 {
+				p.Count("outside_grammar["+outside+"].agree", 1)
+				p.Outcome("agree")
+			} else {
+				p.Count("outside_grammar["+outside+"].differ: "+viol[0].sig, 1)
+				p.Outcome("outside-grammar-differ")
+			}
+			continue
+		}
 		for _, v := range viol {
-			c := &httpgen.Case{Stream: m.B, Client: client, Mode: httpgen.Real, ReadLimit: -1, Policy: track.Pooled, Every: fk.every}
-			p.Report(v.sig, v.desc+" | feed: "+fk.name+" | stream: "+m.Desc, scenario, c.Input(m.Desc))
+			p.Report(v.sig, v.desc+" | feed: "+fk.name+" | stream: "+m.Desc, scenario, newCase(m.B, client, fk.every).Input(m.Desc))
 		}
 		if len(viol) == 0 {
 			p.Outcome("agree")
@@ -612,6 +791,125 @@ func (e *evaluator) stream(m *httpgen.Msg, client bool) {
 			p.Outcome("differ")
 		}
 	}
+}
+
+// ---------------------------------------------------------------------------------------------
+// pipeline representatives
+
+// rep is one member of the representative set the pipelines are built from.
+type rep struct {
+	m       *httpgen.Msg
+	chunked bool
+	decl    int  // 0: no Trailer header, 1: names A, 2: names B-c and D
+	closing bool // the message asks for / implies the end of the connection
+	core    bool // no Connection header, HTTP/1.1, plain status line: member of the quick triples
+}
+
+var repDecls = []struct {
+	name, names string
+	sent        []H
+}{{"-", "", nil}, {"tA", "A", []H{{"A", " 1"}}}, {"tBD", "B-c, D", []H{{"B-c", " 22"}, {"D", " x y"}}}}
+
+var repConns = []struct {
+	name, ver string
+	cf        connForm
+	closing   bool
+}{
+	{"1.1", "HTTP/1.1", nil, false},
+	{"1.1-keep-alive", "HTTP/1.1", connForm{" keep-alive"}, false},
+	{"1.1-close", "HTTP/1.1", connForm{" close"}, true},
+	{"1.1-x,close", "HTTP/1.1", connForm{" x, close"}, true},
+	{"1.0", "HTTP/1.0", nil, true},
+	{"1.0-keep-alive", "HTTP/1.0", connForm{" keep-alive"}, false},
+}
+
+// repBody applies trailer declaration d to a body / header list: declared and sent on a chunked
+// body, declared only (a plain header) on any other.
+func repBody(b httpgen.Body, hs []H, d, id int) (httpgen.Body, []H) {
+	if d == 0 {
+		return b, hs
+	}
+	if b.Kind == httpgen.BodyChunked {
+		b.Declared, b.Trailers = repDecls[d].names, repDecls[d].sent
+		return b, hs
+	}
+	return b, withDecl(hs, []H{{"Trailer", " " + repDecls[d].names}}, id)
+}
+
+func requestReps() []rep {
+	P := httpgen.Payload
+	fbs := []bodyForm{
+		{name: "none", b: httpgen.Body{Kind: httpgen.BodyNone}},
+		{name: "cl0", b: httpgen.Body{Kind: httpgen.BodyCL, Data: []byte{}}},
+		{name: "cl3", b: httpgen.Body{Kind: httpgen.BodyCL, Data: P(3, 0)}},
+		{name: "ch[]", b: httpgen.Body{Kind: httpgen.BodyChunked, Chunks: [][]byte{}}},
+		{name: "ch[3]", b: httpgen.Body{Kind: httpgen.BodyChunked, Chunks: [][]byte{P(3, 1)}}},
+	}
+	var out []rep
+	for _, fb := range fbs {
+		for d := range repDecls {
+			for _, c := range repConns {
+				chunked := fb.b.Kind == httpgen.BodyChunked
+				if chunked && c.ver == "HTTP/1.0" {
+					continue
+				}
+				id := len(out)
+				hs := withConn([]H{{"Host", " h"}, {"X-R", fmt.Sprintf(" q%d", id)}}, c.cf, id%3)
+				body, hs := repBody(fb.b, hs, d, id)
+				method := "POST"
+				if fb.name == "none" {
+					method = "GET"
+				}
+				m := (&httpgen.Req{Method: method, Target: fmt.Sprintf("/q%d?i=%d", id, id), Version: c.ver, Headers: hs, Body: body, FramingFirst: id%2 == 1}).Build()
+				m.Desc = fmt.Sprintf("q%d:%s/%s/%s", id, fb.name, repDecls[d].name, c.name)
+				out = append(out, rep{m: m, chunked: chunked, decl: d, closing: c.closing, core: c.name == "1.1"})
+			}
+		}
+	}
+	return out
+}
+
+func responseReps() []rep {
+	P := httpgen.Payload
+	fbs := []struct {
+		bodyForm
+		status string
+	}{
+		{bodyForm{name: "204", b: httpgen.Body{Kind: httpgen.BodyNone}}, "204 No Content"},
+		{bodyForm{name: "304", b: httpgen.Body{Kind: httpgen.BodyNone}}, "304 Not Modified"},
+		{bodyForm{name: "cl0", b: httpgen.Body{Kind: httpgen.BodyCL, Data: []byte{}}}, "200 OK"},
+		{bodyForm{name: "cl3", b: httpgen.Body{Kind: httpgen.BodyCL, Data: P(3, 0)}}, "404 Not Found"},
+		{bodyForm{name: "ch[]", b: httpgen.Body{Kind: httpgen.BodyChunked, Chunks: [][]byte{}}}, "201 Created"},
+		{bodyForm{name: "ch[3]", b: httpgen.Body{Kind: httpgen.BodyChunked, Chunks: [][]byte{P(3, 1)}}}, "200 OK"},
+	}
+	var out []rep
+	add := func(fb bodyForm, status string, d int, cname, ver string, cf connForm, closing, core bool) {
+		id := len(out)
+		hs := withConn([]H{{"X-R", fmt.Sprintf(" s%d", id)}}, cf, id%2)
+		body, hs := repBody(fb.b, hs, d, id)
+		m := (&httpgen.Res{Version: ver, Status: status, Headers: hs, Body: body, FramingFirst: id%2 == 1}).Build()
+		m.Desc = fmt.Sprintf("s%d:%q/%s/%s/%s", id, status, fb.name, repDecls[d].name, cname)
+		out = append(out, rep{m: m, chunked: fb.b.Kind == httpgen.BodyChunked, decl: d, closing: closing, core: core})
+	}
+	for _, fb := range fbs {
+		for d := range repDecls {
+			for _, c := range repConns {
+				if c.name == "1.1-x,close" || (fb.b.Kind == httpgen.BodyChunked && c.ver == "HTTP/1.0") {
+					continue
+				}
+				add(fb.bodyForm, fb.status, d, c.name, c.ver, c.cf, c.closing, c.name == "1.1")
+			}
+		}
+	}
+	// status-line spellings (RFC 7230 3.1.2: reason-phrase = *( HTAB / SP / VCHAR )), one framing
+	// class each; the empty reason-phrase is a member of the quick triples
+	for i, fb := range []int{0, 3, 5} {
+		code := fbs[fb].status[:3]
+		for j, reason := range []string{" ", " 2xx fine", " Very Good Indeed", " (ok)", " 2xx"} {
+			add(fbs[fb].bodyForm, code+reason, (i+j)%3, "1.1", "HTTP/1.1", nil, false, j == 0)
+		}
+	}
+	return out
 }
 
 // ---------------------------------------------------------------------------------------------
@@ -641,6 +939,7 @@ func run(tier string, sh *vkit.Shard, p *vkit.Part) {
 	}
 	versions := []string{"HTTP/1.1", "HTTP/1.0"}
 	bodies := bodyForms()
+	cross := crossForms()
 	sampled := 0
 
 	// requests: full product
@@ -655,11 +954,32 @@ func run(tier string, sh *vkit.Shard, p *vkit.Part) {
 			r := &httpgen.Req{Method: method, Target: target, Version: ver, Headers: withConn(hs, cf, ix[2]%3), Body: b.b, FramingFirst: ff}
 			m := r.Build()
 			m.Desc = fmt.Sprintf("req#%d %s %s %s hdrset=%d conn=%q body=%s framingFirst=%v", lin, method, target, ver, ix[2], []string(cf), b.name, ff)
-			e.stream(m, false)
+			e.stream(m, false, "")
 			p.Count("grammar_requests", 1)
 			if sampled < 3 && b.b.Kind == httpgen.BodyChunked && len(b.b.Trailers) > 0 && len(cf) > 0 {
 				sampled++
 				p.Sample(map[string]interface{}{"stream": string(m.B), "desc": m.Desc})
+			}
+		})
+	})
+	// requests: the cross forms (header features on every framing class) x Connection form x
+	// header set x framing-header position x version; method and target vary with the indices
+	// (they are a full product with the framing classes above)
+	dimsX := []int{len(cross), len(connForms), len(hsReq), 2, len(versions)}
+	httpgen.Product(dimsX, 1, func(lin int, ix []int) {
+		b, cf, hs, ff, ver := cross[ix[0]], connForms[ix[1]], hsReq[ix[2]], ix[3] == 1, versions[ix[4]]
+		if ver == "HTTP/1.0" && b.b.Kind == httpgen.BodyChunked {
+			return
+		}
+		item(func() {
+			method, target := methods[ix[2]%len(methods)], targets[ix[1]%len(targets)]
+			r := &httpgen.Req{Method: method, Target: target, Version: ver, Headers: withDecl(withConn(hs, cf, ix[2]%3), b.decl, ix[1]+ix[2]), Body: b.b, FramingFirst: ff}
+			m := r.Build()
+			m.Desc = fmt.Sprintf("xreq#%d %s %s %s hdrset=%d conn=%q body=%s framingFirst=%v", lin, method, target, ver, ix[2], []string(cf), b.name, ff)
+			e.stream(m, false, "")
+			p.Count("grammar_requests.cross", 1)
+			if len(b.decl) > 0 && b.b.Kind != httpgen.BodyChunked {
+				p.Count("grammar_requests.trailer_declared_on_non_chunked", 1)
 			}
 		})
 	})
@@ -684,20 +1004,91 @@ func run(tier string, sh *vkit.Shard, p *vkit.Part) {
 			r := &httpgen.Res{Version: ver, Status: st, Headers: withConn(hs, cf, ix[2]%3), Body: b.b, FramingFirst: ff}
 			m := r.Build()
 			m.Desc = fmt.Sprintf("res#%d %s %s hdrset=%d conn=%q body=%s framingFirst=%v", lin, ver, st, ix[2], []string(cf), b.name, ff)
-			e.stream(m, true)
+			e.stream(m, true, "")
 			p.Count("grammar_responses", 1)
 		})
 	})
-
-	// pipelines: all ordered pairs and triples of a base set
-	pickReq := func(method, target, ver string, hs []H, b string) *httpgen.Msg {
-		var body httpgen.Body
-		for _, bf := range bodies {
-			if bf.name == b {
-				body = bf.b
+	// responses: the cross forms
+	dimsRX := []int{len(cross), len(connRes), len(hsRes), 2, len(versions)}
+	httpgen.Product(dimsRX, 1, func(lin int, ix []int) {
+		b, cf, hs, ff, ver := cross[ix[0]], connRes[ix[1]], hsRes[ix[2]], ix[3] == 1, versions[ix[4]]
+		if ver == "HTTP/1.0" && b.b.Kind == httpgen.BodyChunked {
+			return
+		}
+		item(func() {
+			st := []string{"200 OK", "404 Not Found"}[ix[2]%2]
+			if b.b.Kind == httpgen.BodyNone {
+				st = []string{"204 No Content", "304 Not Modified"}[ix[2]%2]
+			}
+			r := &httpgen.Res{Version: ver, Status: st, Headers: withDecl(withConn(hs, cf, ix[2]%3), b.decl, ix[1]+ix[2]), Body: b.b, FramingFirst: ff}
+			m := r.Build()
+			m.Desc = fmt.Sprintf("xres#%d %s %s hdrset=%d conn=%q body=%s framingFirst=%v", lin, ver, st, ix[2], []string(cf), b.name, ff)
+			e.stream(m, true, "")
+			p.Count("grammar_responses.cross", 1)
+			if len(b.decl) > 0 && b.b.Kind != httpgen.BodyChunked {
+				p.Count("grammar_responses.trailer_declared_on_non_chunked", 1)
+			}
+		})
+	})
+	// responses: status-line spellings x one body form per framing class (+ trailers, + a Trailer
+	// declaration on a non-chunked one) x Connection form x header set x position x version
+	type statusForm struct {
+		text     string
+		bodiless bool
+		outside  string
+	}
+	const noSP = "status-line-without-SP-behind-the-code"
+	statusForms := []statusForm{
+		{"200 ", false, ""}, {"200 2xx", false, ""}, {"200 2xx fine", false, ""}, {"200 (ok)", false, ""}, {"200 O.K.", false, ""},
+		{"200 200", false, ""}, {"200  OK", false, ""}, {"200 OK ", false, ""}, {"200 a\tb", false, ""}, {"200 Very Good Indeed", false, ""},
+		{"200 ok", false, ""}, {"299 -", false, ""}, {"404 ", false, ""},
+		{"204 ", true, ""}, {"304 ", true, ""}, {"204 2xx none", true, ""}, {"304 (not) modified", true, ""},
+		// net/http also accepts a status line that ends behind the code; RFC 7230 3.1.2 (and RFC
+		// 9112 4) require the SP: outside the grammar of the property, observed only
+		{"200", false, noSP}, {"204", true, noSP},
+	}
+	pick := func(list []bodyForm, names ...string) []bodyForm {
+		var out []bodyForm
+		for _, n := range names {
+			for _, f := range list {
+				if f.name == n {
+					out = append(out, f)
+				}
 			}
 		}
-		m := (&httpgen.Req{Method: method, Target: target, Version: ver, Headers: hs, Body: body}).Build()
+		if len(out) != len(names) {
+			panic("c07: unknown body form in " + strings.Join(names, ","))
+		}
+		return out
+	}
+	stBodies := append(pick(bodies, "cl0", "cl3", "ch[]", "ch[3]", "ch[3]-t1"), pick(cross, "cl3+decl[A]")...)
+	stNone := append(pick(bodies, "none"), pick(cross, "none+decl[A]")...)
+	for si, sf := range statusForms {
+		si, sf := si, sf
+		bs := stBodies
+		if sf.bodiless {
+			bs = stNone
+		}
+		dimsS := []int{len(bs), len(connRes), len(hsRes), 2, len(versions)}
+		httpgen.Product(dimsS, 1, func(lin int, ix []int) {
+			b, cf, hs, ff, ver := bs[ix[0]], connRes[ix[1]], hsRes[ix[2]], ix[3] == 1, versions[ix[4]]
+			if ver == "HTTP/1.0" && b.b.Kind == httpgen.BodyChunked {
+				return
+			}
+			item(func() {
+				r := &httpgen.Res{Version: ver, Status: sf.text, Headers: withDecl(withConn(hs, cf, ix[2]%3), b.decl, ix[1]+ix[2]), Body: b.b, FramingFirst: ff}
+				m := r.Build()
+				m.Desc = fmt.Sprintf("sres#%d.%d %s status-line=%q hdrset=%d conn=%q body=%s framingFirst=%v", si, lin, ver, ver+" "+sf.text, ix[2], []string(cf), b.name, ff)
+				e.stream(m, true, sf.outside)
+				p.Count("grammar_responses.status_line_spellings", 1)
+			})
+		})
+	}
+
+	// pipelines (1): all ordered pairs and triples of the original base set (larger bodies,
+	// extensions, upper-case sizes)
+	pickReq := func(method, target, ver string, hs []H, b string) *httpgen.Msg {
+		m := (&httpgen.Req{Method: method, Target: target, Version: ver, Headers: hs, Body: pick(bodies, b)[0].b}).Build()
 		m.Desc = method + " " + b
 		return m
 	}
@@ -715,13 +1106,7 @@ func run(tier string, sh *vkit.Shard, p *vkit.Part) {
 		pickReq("POST", "/", "HTTP/1.1", []H{host}, "ch[3]-t1"),
 	}
 	pickRes := func(ver, st string, hs []H, b string) *httpgen.Msg {
-		var body httpgen.Body
-		for _, bf := range bodies {
-			if bf.name == b {
-				body = bf.b
-			}
-		}
-		m := (&httpgen.Res{Version: ver, Status: st, Headers: hs, Body: body}).Build()
+		m := (&httpgen.Res{Version: ver, Status: st, Headers: hs, Body: pick(bodies, b)[0].b}).Build()
 		m.Desc = st + " " + b
 		return m
 	}
@@ -743,11 +1128,67 @@ func run(tier string, sh *vkit.Shard, p *vkit.Part) {
 		for _, a := range set.ms {
 			for _, b := range set.ms {
 				a, b := a, b
-				item(func() { e.stream(httpgen.Pipeline(a, b), set.client); p.Count("pipelines", 1) })
+				item(func() { e.stream(httpgen.Pipeline(a, b), set.client, ""); p.Count("pipelines", 1) })
 				for _, c := range set.ms {
 					c := c
-					item(func() { e.stream(httpgen.Pipeline(a, b, c), set.client); p.Count("pipelines", 1) })
+					item(func() { e.stream(httpgen.Pipeline(a, b, c), set.client, ""); p.Count("pipelines", 1) })
 				}
+			}
+		}
+	}
+
+	// pipelines (2): state carried from one message to the next. All ordered pairs of the
+	// representative set; all ordered triples of its core (quick) / of the whole set (thorough).
+	for _, set := range []struct {
+		reps   []rep
+		client bool
+		side   string
+	}{{requestReps(), false, "requests"}, {responseReps(), true, "responses"}} {
+		set := set
+		// (predecessors that keep the connection open first: the stored witness of a signature is
+		// the first case that showed it)
+		for _, closing := range []bool{false, true} {
+			for _, a := range set.reps {
+				if a.closing != closing {
+					continue
+				}
+				for _, b := range set.reps {
+					a, b := a, b
+					item(func() {
+						e.stream(httpgen.Pipeline(a.m, b.m), set.client, "")
+						p.Count("pipelines", 1)
+						p.Count("pipeline_pairs."+set.side, 1)
+						switch {
+						case !a.chunked && a.decl > 0 && b.chunked:
+							p.Count("pipeline_pairs.trailer_declared_on_non_chunked_then_chunked", 1)
+						case a.chunked && a.decl > 0 && b.chunked && b.decl != a.decl:
+							p.Count("pipeline_pairs.chunked_with_trailers_then_chunked_with_other_or_no_trailers", 1)
+						case a.chunked && !b.chunked:
+							p.Count("pipeline_pairs.chunked_then_non_chunked", 1)
+						}
+						if a.closing {
+							p.Count("pipeline_pairs.predecessor_ends_the_connection", 1)
+						}
+					})
+				}
+			}
+		}
+		for _, a := range set.reps {
+			for _, b := range set.reps {
+				if !thorough && !(a.core && b.core) {
+					continue
+				}
+				a, b := a, b
+				item(func() {
+					for _, c := range set.reps {
+						if !thorough && !c.core {
+							continue
+						}
+						e.stream(httpgen.Pipeline(a.m, b.m, c.m), set.client, "")
+						p.Count("pipelines", 1)
+						p.Count("pipeline_triples."+set.side, 1)
+					}
+				})
 			}
 		}
 	}
@@ -762,12 +1203,16 @@ func replay(_ string, raw json.RawMessage) string {
 		return "bad replay input: " + err.Error()
 	}
 	fmt.Printf("stream (%d bytes): %s\nevery=%d client=%v\n", len(c.Stream), in.Stream, c.Every, c.Client)
-	viol, refErr, n, r, _ := check(c.Stream, c.Client, c.Every)
+	viol, refErr, gos, r := check(c.Stream, c.Client, c.Every)
 	if refErr != nil {
 		fmt.Println("reference rejects the stream:", refErr)
 		return ""
 	}
-	fmt.Printf("net/http: %d message(s)\nnbhttp: verdict=%q\n%s", n, r.Verdict, r.Log)
+	fmt.Printf("net/http: %d message(s):", len(gos))
+	for i := range gos {
+		fmt.Printf(" [%d] %s ends at %d;", i, features(&gos[i]), gos[i].end)
+	}
+	fmt.Printf("\nnbhttp: verdict=%q\n%s", r.Verdict, r.Log)
 	var out []string
 	for _, v := range viol {
 		fmt.Printf("MISMATCH %s: %s\n", v.sig, v.desc)
@@ -779,13 +1224,16 @@ func replay(_ string, raw json.RawMessage) string {
 func main() {
 	vkit.Main(&vkit.Spec{
 		Property: "C07", Level: "model_checking",
-		Rule: "one case = (well-formed byte stream, feed) where the stream is one message of the grammar (full product of body/framing spelling x Connection form x header set x framing-header position x method x target x version; responses: x status) or an ordered pair/triple of 10 base requests / 8 base responses, and the feed is one piece or byte-at-a-time; the stream is parsed by net/http (reference) and by the real nbhttp parser + Server/ClientProcessor and every listed field of every message plus the message boundary offset is compared; a case is non-trivial when the reference saw a body, a trailer, a Connection header / close decision, or more than one message; streams the reference rejects are excluded and counted",
+		Rule: "one case = (well-formed byte stream, feed); the feed is one piece or byte-at-a-time; the stream is (a) one message of the grammar: full product of body/framing spelling x Connection form x header set x framing-header position x method x target x version (responses: x status); (b) one message of the cross forms - header features that are legal on every framing class, on the classes the base product lacks them: a Trailer declaration (one name, a list, two lines, lower case) on every bodiless / Content-Length form, a declaration written in front of Transfer-Encoding or over two lines on chunked forms, Transfer-Encoding spellings x {no chunk, trailers}, Content-Length spellings of an empty body - x Connection form x header set x position x version; (c) responses: 17 status-line spellings inside the RFC 7230 grammar (empty reason-phrase, several words, leading digit / punctuation, HTAB, surrounding SP) x one body form per framing class x Connection form x header set x position x version; (d) every ordered pair and triple of the 10 base requests / 8 base responses; (e) every ordered pair of the representative set - one representative per (framing class x body presence: bodiless, Content-Length 0 / 3, chunked without / with a chunk) x (trailer declaration: none, names A, names B-c + D; declared and sent on a chunked message, declared only on any other) x (Connection form / version: HTTP/1.1 absent / keep-alive / close / 'x, close', HTTP/1.0 absent / keep-alive), each with its own target and marker header; responses: + 15 status-line spellings - and every ordered triple of its core (no Connection header, HTTP/1.1; thorough: of the whole set). The stream is parsed by net/http (reference) and by the real nbhttp parser + Server/ClientProcessor and every listed field of every message plus the message boundary offset is compared; a message with predecessors that disagrees is also parsed alone on a fresh parser and, when it agrees there, reported as carried state with the predecessors' features in the signature. A case is non-trivial when the reference saw a body, a trailer, a Connection header / close decision, or more than one message; streams the reference rejects are excluded and counted",
 		Assumptions: []string{
-			"reference: http.ReadRequest / http.ReadResponse (Go 1.23) over a bufio.Reader, body read to EOF so that trailers are populated; consumed bytes = stream length - unread bytes",
-			"header multimap compared minus the framing headers net/http removes (Host, Transfer-Encoding, Trailer, Content-Length when chunked, Connection once close has been recorded) and with values trimmed of SP/HT on both sides",
-			"not compared, because the two differ by documented design: URL.Host (nbhttp copies Host into it), ContentLength for bodiless requests (nbhttp -1, net/http 0), multi-word reason phrases (nbhttp keeps the first word), Request.TransferEncoding",
-			"excluded forms: absolute-form and authority-form targets, obs-fold, whitespace before the colon, HTTP/1.0 with Transfer-Encoding, bare LF, responses delimited by connection close, 204/304 with framing headers, Content-Length together with Transfer-Encoding, '+' signed lengths, trailers that are declared but not sent or sent but not declared",
+			"reference: http.ReadRequest / http.ReadResponse (Go 1.23) in a loop over one bufio.Reader, body read to EOF so that trailers are populated; consumed bytes = stream length - unread bytes",
+			"header multimap compared minus the framing headers net/http removes (Host, Transfer-Encoding, and on a chunked message Content-Length and Trailer, Connection once close has been recorded) and with values trimmed of SP/HT on both sides; on a non-chunked message net/http keeps Trailer as a plain header and it is compared like any other",
+			"not compared, because the two differ by documented design: URL.Host (nbhttp copies Host into it), ContentLength for bodiless requests (nbhttp -1, net/http 0), Request.TransferEncoding, the words of a reason phrase behind the first (nbhttp keeps the first word; net/http's Status is '<code> <reason>', nbhttp's the reason alone: the first word is compared)",
+			"excluded forms: absolute-form and authority-form targets, obs-fold, whitespace before the colon, HTTP/1.0 with Transfer-Encoding, bare LF, responses delimited by connection close, 204/304 with framing headers, Content-Length together with Transfer-Encoding, '+' signed lengths, trailers that are declared but not sent or sent but not declared on a chunked message",
+			"a status line that ends behind the status code without the SP ('HTTP/1.1 200' CRLF) is accepted by net/http but is outside the RFC 7230 3.1.2 grammar: it is run and what nbhttp does is counted (outside_grammar[...]), not judged",
 			"trailer fields: a field line with an empty value, with internal spaces, or repeated is well-formed (RFC 7230 3.2 / 4.1.2) and part of the compared space",
+			"pipelines: the harness connection does not act on a close decision, so the parser is expected to go on with the messages behind one that ends the connection, as the reference's reader loop does (parser-level agreement on the message boundaries)",
+			"per-case allocator: httpgen's lite allocator (fresh per case, no recycling, freed memory poisoned, no call-site attribution); ownership violations belong to C11 and are only counted",
 		},
 		Seq: run, ReplaySeq: replay, MinNonTrivial: 1000,
 	})
